@@ -256,6 +256,7 @@ func runCheck(o *Options, e *Engine, prop string) *CheckRun {
 		os.MkdirAll(dir, 0o755)
 	}
 	all := append(append([]*Obligation{}, run.Obls...), run.Covers...)
+	kfList := loadKnownFindings(o.Verif)
 	var wg2 sync.WaitGroup
 	for i, ob := range all {
 		if ob.Trivial {
@@ -270,6 +271,10 @@ func runCheck(o *Options, e *Engine, prop string) *CheckRun {
 			defer func() { <-sem }()
 			q := ob.Query(true)
 			var ans SolverAnswer
+			timeout := o.TimeoutS
+			if kfList.match("", ob) != nil && timeout > 6 {
+				timeout = 6 // recorded finding: expected to fail, do not spend the full budget on it
+			}
 			if ob.IsCover {
 				file := filepath.Join(dir, fmt.Sprintf("q%05d.smt2", i))
 				os.WriteFile(file, []byte(q), 0o644)
@@ -279,7 +284,27 @@ func runCheck(o *Options, e *Engine, prop string) *CheckRun {
 				os.WriteFile(file, []byte(q), 0o644)
 				ans = runOne("z3-new", file, 2)
 			} else {
-				ans, _ = solve(dir, fmt.Sprintf("q%05d", i), q, o.TimeoutS, false)
+				ans, _ = solve(dir, fmt.Sprintf("q%05d", i), q, timeout, false)
+			}
+			if ans.Status != "unsat" && ans.Status != "sat" && len(ob.parts) > 1 && len(ob.cx.splits) == 0 && !ob.IsCover {
+				// one query per return path
+				total := ans.TimeS
+				allUnsat := true
+				for pi := range ob.parts {
+					pa, _ := solve(dir, fmt.Sprintf("q%05d_p%d", i, pi), ob.QueryPart(pi), timeout, false)
+					total += pa.TimeS
+					if pa.Status != "unsat" {
+						allUnsat = false
+						ans = pa
+						if pa.Status == "sat" {
+							break
+						}
+					}
+				}
+				if allUnsat {
+					ans = SolverAnswer{Status: "unsat", Solver: "z3-new+paths", TimeS: total}
+				}
+				ans.TimeS = total
 			}
 			if ans.Status != "unsat" && ans.Status != "sat" && len(ob.cx.splits) > 0 && !ob.IsCover {
 				// case split: every case must be unsat
@@ -330,7 +355,7 @@ func runCheck(o *Options, e *Engine, prop string) *CheckRun {
 				}
 			default:
 				ob.Status = ans.Status
-				if ob.cx.bc != nil && ob.cx.bc.C.Replay != "" {
+				if (ob.cx.bc != nil && ob.cx.bc.C.Replay != "") || explainMode {
 					// look for a candidate counterexample without the quantified hypotheses
 					ob.cx.w.mu.Lock()
 					refs := ob.refutations()
@@ -343,6 +368,15 @@ func runCheck(o *Options, e *Engine, prop string) *CheckRun {
 						os.WriteFile(file, []byte(ob.QueryRelaxed(rf)), 0o644)
 						ra := runOne("z3-new", file, 6)
 						if ra.Status == "sat" {
+							if explainMode {
+								if i := strings.Index(ra.Output, "EXPLAIN"); i >= 0 {
+									txt := ra.Output[i:]
+									if len(txt) > 4000 {
+										txt = txt[:4000]
+									}
+									fmt.Printf("---- (candidate, quantified hypotheses dropped) %s\n%s\n", shortName(ob.Name), txt)
+								}
+							}
 							ob.Relaxed = true
 							ob.Model = ra.Output
 							ob.Output = ans.Output + "\n--- candidate counterexample (quantified hypotheses dropped) ---\n" + ra.Output
@@ -495,6 +529,16 @@ func report(o *Options, e *Engine, run *CheckRun) int {
 		default:
 			if ob.Relaxed {
 				if tryReplayRelaxed(o, e, ob, path) == "reproduced" {
+					fmt.Printf("VIOLATION property=%s replay=%s obligation=%q status=%s\n", prop, path, shortName(ob.Name), ob.Status)
+					break
+				}
+			} else if ob.cx.bc != nil && ob.cx.bc.C.Replay != "" {
+				// no model: let the scenario search its own inputs for the forbidden behaviour
+				saved := ob.Output
+				ob.Output = ""
+				r := tryReplay(o, e, ob, path)
+				ob.Output = saved
+				if r == "reproduced" {
 					fmt.Printf("VIOLATION property=%s replay=%s obligation=%q status=%s\n", prop, path, shortName(ob.Name), ob.Status)
 					break
 				}
